@@ -70,7 +70,7 @@ func strCheck(want string) func(h.Outcome) string {
 
 func c18(c *Ctx) {
 	maxS := c.N(5, 5)
-	c.Rule = fmt.Sprintf("exhaustive: all strings of length <=%d over {a,b,c} x all needles of length <=3 x {Contains,NotContains,Prefix,NotPrefix,Suffix,NotSuffix}; x n in 0..7 x {Left,Right,TrimLeft,TrimRight}; ReplaceAll x non-empty needles of length <=2 x 3 replacements; each compared with the model and with Go's strings package; random: ASCII/non-ASCII strings, regex patterns and templates from a generator with Go's regexp as oracle; arguments as literal, numeric string, path; ReplaceAll / ReplaceRegex with (path, literal), (literal, path) and (path, path) arguments. Non-trivial = subject non-empty; distinct by (query, data).", maxS)
+	c.Rule = fmt.Sprintf("exhaustive: all strings of length <=%d over {a,b,c} x all needles of length <=3 x {Contains,NotContains,Prefix,NotPrefix,Suffix,NotSuffix}; x n in 0..7 x {Left,Right,TrimLeft,TrimRight}; ReplaceAll x non-empty needles of length <=2 x 3 replacements; each compared with the model and with Go's strings package; random: ASCII/non-ASCII strings, regex patterns and templates from a generator with Go's regexp as oracle; arguments as literal, numeric string, path; ReplaceAll / ReplaceRegex with (path, literal), (literal, path) and (path, path) arguments.; needles, search strings and replacements that read as numbers, as literals and through paths; literal words anchored at one or both ends against subjects that equal, start with, end with or contain them. Non-trivial = subject non-empty; distinct by (query, data).", maxS)
 	subjects := allStrings("abc", maxS)
 	needles := allStrings("abc", 3)
 	type bf struct {
